@@ -528,10 +528,21 @@ def oracle(mod, spec, fields, C, S, fails, stats):
         bad("ClassVar lost")
     if (S.__hash__ is None) != (C.__hash__ is None):
         bad("hashability differs")
+    shadowed = set()
     for n in names:
         holders = [k for k in S.__mro__ if isinstance(vars(k).get(n), types.MemberDescriptorType)]
         if len(holders) != 1:
             bad("field does not have exactly one slot along the MRO", field=n, holders=holders)
+            continue
+        first = next(k for k in S.__mro__ if n in vars(k))
+        if first is S and holders[0] is not S:
+            bad("the new class keeps a class attribute that shadows an inherited slot", field=n)
+        elif first is not holders[0]:
+            # an UNSLOTTED class between the slot's owner and the decorated class re-declares the field with a
+            # default: its class attribute shadows the slot for C and slotted(C) alike (nothing slotted can do)
+            shadowed.add(n)
+            stats["observed:inherited-slot-shadowed-by-a-base-class-default"] = \
+                stats.get("observed:inherited-slot-shadowed-by-a-base-class-default", 0) + 1
     ok("class-object")
     tail = C.__mro__[1:]
     want_dict = bool(spec["dict"]) or any(getattr(b, "__dictoffset__", 0) for b in tail)
@@ -567,7 +578,7 @@ def oracle(mod, spec, fields, C, S, fails, stats):
             bad("method result differs", real=y.total(), expected=x.total())
         if hasattr(y, "__dict__") != want_dict:
             bad("instance __dict__ present" if not want_dict else "instance __dict__ missing", dict_flag=spec["dict"])
-        elif want_dict and any(n in vars(y) for n in names):
+        elif want_dict and any(n in vars(y) for n in names if n not in shadowed):
             bad("a field lives in the instance __dict__ instead of its slot", real=vars(y))
         wr = _try(lambda: weakref.ref(y))
         if (wr[0] == "ok") != want_wr:
@@ -809,7 +820,7 @@ def explore(ctx):
     res = Result()
     res.rule = RULE
     jobs = scenario_jobs(ctx.rng)
-    jobs += [gen_history(ctx.rng, i) for i in range(ctx.n(220, 4000))]
+    jobs += [gen_history(ctx.rng, i) for i in range(ctx.n(220, 12000))]
     outs = iso.map_isolated(real_history, jobs)
     evaluate(jobs, outs, res)
     return res
